@@ -164,12 +164,12 @@ Proof. intro H. unfold wf_dna in Hl. rewrite Forall_forall in Hl. apply Hl. now 
 
 Theorem first_kmer_spec : (K <= len)%nat ->
   exists r, first_kmer cget_kmer = Some r /\ wf K r /\ decode K r = kmer_at K l 0.
-Proof. intro H. unfold first_kmer. apply Hgk. subst len. lia. Qed.
+Proof. intro H. unfold first_kmer. apply Hgk. exact H. Qed.
 Theorem last_kmer_spec : (K <= len)%nat ->
   exists r, last_kmer c len cget_kmer = Some r /\ wf K r /\ decode K r = kmer_at K l (len - K).
 Proof.
-  intro H. unfold last_kmer, subn. fold K. destruct (Nat.leb_spec K len) as [_|?]; [|lia]. cbn [obind].
-  apply Hgk. subst len. lia.
+  clear Hget Hl. clear cget. intro H. unfold last_kmer, subn. fold K. destruct (Nat.leb_spec K len) as [_|?]; [|lia]. cbn [obind].
+  apply Hgk. change (length l) with len. lia.
 Qed.
 (* the guard is needed: len - K underflows *)
 Theorem last_kmer_short : (len < K)%nat -> last_kmer c len cget_kmer = None.
@@ -180,16 +180,16 @@ Lemma kmer_iter_loop_spec : forall fuel kmer pos, wf K kmer -> (K <= pos)%nat ->
   exists ks, kmer_iter_loop c len cget fuel kmer pos = Some ks /\ Forall (wf K) ks /\
              map (decode K) ks = map (kmer_at K l) (seq (pos - K) (len + 1 - pos)).
 Proof.
-  pose proof Kpos as HK.
+  pose proof Kpos as HK. pose proof (eq_refl : len = length l) as Hlen.
   induction fuel as [|fuel IH]; intros kmer pos Hwf HKp Hpl Hd Hf; [lia|].
   cbn [kmer_iter_loop]. destruct (Nat.leb_spec pos len) as [_|?]; [|lia].
   destruct (Nat.ltb_spec pos len) as [Hlt|Hge].
-  - rewrite Hget by (subst len; lia). cbn [obind].
+  - rewrite Hget by lia. cbn [obind].
     destruct (extend_right_spec c kmer (nth pos l 0) Hc Hwf (nth_lt4 pos Hlt)) as [kmer' [E [W D]]].
     rewrite E. cbn [obind]. fold K in D.
     assert (D' : decode K kmer' = kmer_at K l (S pos - K)).
     { rewrite D, Hd. replace (nth pos l 0) with (nth (pos - K + K) l 0) by (f_equal; lia).
-      replace (S pos - K)%nat with (S (pos - K)) by lia. apply kmer_at_shift; [exact HK | subst len; lia]. }
+      replace (S pos - K)%nat with (S (pos - K)) by lia. apply kmer_at_shift; [exact HK | lia]. }
     destruct (IH kmer' (S pos) W ltac:(lia) ltac:(lia) D' ltac:(lia)) as [ks [Ek [Wk Dk]]].
     rewrite Ek. cbn [obind]. exists (kmer :: ks). split; [reflexivity|]. split; [constructor; assumption|].
     cbn [map]. rewrite Hd, Dk. replace (len + 1 - pos)%nat with (S (len + 1 - S pos)) by lia. cbn [seq map].
@@ -314,3 +314,125 @@ Proof.
 Qed.
 End ContainerSpec.
 
+
+(* ---------------------------------------------------------------- the generic theorems, instantiated per container *)
+Lemma complement_comp b : b < 4 -> complement b = comp b.
+Proof. intro H. destruct b as [|[[p|p|]|[p|p|]|]]; try lia; reflexivity. Qed.
+
+Theorem sl_get_spec d s i : d_inv d -> (s_start s + s_length s <= d_len d)%nat -> (i < s_length s)%nat ->
+  sl_get d s i = Some (nth i (sl_view (d_abs d) s) 0).
+Proof.
+  intros Hinv Hs Hi. pose proof (d_abs_length d Hinv) as HA. unfold sl_get, sl_view.
+  assert (Hsl : length (sub (s_start s) (s_length s) (d_abs d)) = s_length s) by (apply sub_length; lia).
+  destruct (s_rc s).
+  - unfold subn. destruct (Nat.leb_spec 1 (s_start s + s_length s)) as [_|?]; [|lia]. cbn [obind].
+    destruct (Nat.leb_spec i (s_start s + s_length s - 1)) as [_|?]; [|lia]. cbn [obind].
+    rewrite d_get_spec by (auto; lia). cbn [obind]. f_equal.
+    rewrite complement_comp.
+    + rewrite rc_nth by lia. rewrite Hsl, nth_sub by lia. do 2 f_equal. lia.
+    + pose proof (d_abs_wf d) as Hw. unfold wf_dna in Hw. rewrite Forall_forall in Hw. apply Hw. apply nth_In. lia.
+  - rewrite d_get_spec by (auto; lia). f_equal. rewrite nth_sub by lia. f_equal. lia.
+Qed.
+Lemma sl_view_length d s : d_inv d -> (s_start s + s_length s <= d_len d)%nat -> length (sl_view (d_abs d) s) = s_length s.
+Proof.
+  intros Hinv Hs. pose proof (d_abs_length d Hinv) as HA. unfold sl_view.
+  destruct (s_rc s); rewrite ?rc_length; apply sub_length; lia.
+Qed.
+Lemma sl_view_wf d s : wf_dna (sl_view (d_abs d) s).
+Proof.
+  unfold sl_view. destruct (s_rc s); [apply rc_wf|].
+  pose proof (d_abs_wf d) as Hw. unfold wf_dna, sub in *. rewrite Forall_forall in *. intros b Hb. apply Hw.
+  eapply in_skipn. eapply in_firstn. exact Hb.
+Qed.
+
+Section Instances.
+Variable c : kcfg.
+Hypothesis Hc : In c shipped.
+Let K := kK c.
+
+(* DnaString *)
+Theorem d_iter_kmers_spec s : d_inv s ->
+  exists ks, iter_kmers c (d_len s) (d_get s) (d_get_kmer c s) = Some ks /\ Forall (wf K) ks /\
+             map (decode K) ks = kmers K (d_abs s).
+Proof.
+  intro Hinv. rewrite <- (d_abs_length s Hinv). apply (iter_kmers_spec c Hc (d_abs s) (d_abs_wf s)).
+  - intros i Hi. apply d_get_spec; [exact Hinv | now rewrite <- (d_abs_length s Hinv)].
+  - intros i Hi. apply d_get_kmer_spec; [exact Hc | exact Hinv | now rewrite <- (d_abs_length s Hinv)].
+Qed.
+Theorem d_iter_kmer_exts_spec s exts : d_inv s -> exts < 256 ->
+  exists items, iter_kmer_exts c (d_len s) (d_get s) (d_get_kmer c s) exts = Some items /\ Forall (item_wf c) items /\
+                map (item_view c) items = map (kmer_exts_item c (d_abs s) exts) (seq 0 (d_len s + 1 - K)).
+Proof.
+  intros Hinv He. rewrite <- (d_abs_length s Hinv). apply (iter_kmer_exts_spec c Hc (d_abs s) (d_abs_wf s)); [| |exact He].
+  - intros i Hi. apply d_get_spec; [exact Hinv | now rewrite <- (d_abs_length s Hinv)].
+  - intros i Hi. apply d_get_kmer_spec; [exact Hc | exact Hinv | now rewrite <- (d_abs_length s Hinv)].
+Qed.
+Theorem d_first_last_kmer_spec s : d_inv s -> (K <= d_len s)%nat ->
+  (exists r, first_kmer (d_get_kmer c s) = Some r /\ wf K r /\ decode K r = kmer_at K (d_abs s) 0) /\
+  (exists r, last_kmer c (d_len s) (d_get_kmer c s) = Some r /\ wf K r /\ decode K r = kmer_at K (d_abs s) (d_len s - K)).
+Proof.
+  intros Hinv HK. pose proof (d_abs_length s Hinv) as HA.
+  assert (G : forall i, (i + K <= length (d_abs s))%nat ->
+            exists r, d_get_kmer c s i = Some r /\ wf K r /\ decode K r = kmer_at K (d_abs s) i).
+  { intros i Hi. apply d_get_kmer_spec; [exact Hc | exact Hinv | now rewrite <- HA]. }
+  rewrite <- HA. split; [apply (first_kmer_spec c (d_abs s)) | apply (last_kmer_spec c (d_abs s))]; auto; fold K; lia.
+Qed.
+
+(* Lmer, every capacity *)
+Theorem l_iter_kmers_spec x len : l_inv x -> l_len x = Some len ->
+  exists ks, iter_kmers c len (l_get x) (l_get_kmer c x) = Some ks /\ Forall (wf K) ks /\
+             map (decode K) ks = kmers K (l_abs x).
+Proof.
+  intros Hinv E. pose proof (l_abs_length x len Hinv E) as HA. rewrite <- HA.
+  apply (iter_kmers_spec c Hc (l_abs x) (l_abs_wf x)).
+  - intros i Hi. apply (l_get_spec x len); [exact Hinv | exact E | now rewrite <- HA].
+  - intros i Hi. apply (l_get_kmer_spec c Hc x len); [exact Hinv | exact E | now rewrite <- HA].
+Qed.
+Theorem l_iter_kmer_exts_spec x len exts : l_inv x -> l_len x = Some len -> exts < 256 ->
+  exists items, iter_kmer_exts c len (l_get x) (l_get_kmer c x) exts = Some items /\ Forall (item_wf c) items /\
+                map (item_view c) items = map (kmer_exts_item c (l_abs x) exts) (seq 0 (len + 1 - K)).
+Proof.
+  intros Hinv E He. pose proof (l_abs_length x len Hinv E) as HA. rewrite <- HA.
+  apply (iter_kmer_exts_spec c Hc (l_abs x) (l_abs_wf x)); [| |exact He].
+  - intros i Hi. apply (l_get_spec x len); [exact Hinv | exact E | now rewrite <- HA].
+  - intros i Hi. apply (l_get_kmer_spec c Hc x len); [exact Hinv | exact E | now rewrite <- HA].
+Qed.
+
+(* slices, forward and reverse-complemented *)
+Theorem sl_iter_kmers_spec d s : d_inv d -> (s_start s + s_length s <= d_len d)%nat ->
+  exists ks, iter_kmers c (s_length s) (sl_get d s) (sl_get_kmer c d s) = Some ks /\ Forall (wf K) ks /\
+             map (decode K) ks = kmers K (sl_view (d_abs d) s).
+Proof.
+  intros Hinv Hs. pose proof (sl_view_length d s Hinv Hs) as HA. rewrite <- HA.
+  apply (iter_kmers_spec c Hc (sl_view (d_abs d) s) (sl_view_wf d s)).
+  - intros i Hi. apply sl_get_spec; [exact Hinv | exact Hs | now rewrite <- HA].
+  - intros i Hi. apply sl_get_kmer_spec; [exact Hc | exact Hinv | exact Hs | now rewrite <- HA].
+Qed.
+Theorem sl_iter_kmer_exts_spec d s exts : d_inv d -> (s_start s + s_length s <= d_len d)%nat -> exts < 256 ->
+  exists items, iter_kmer_exts c (s_length s) (sl_get d s) (sl_get_kmer c d s) exts = Some items /\ Forall (item_wf c) items /\
+                map (item_view c) items = map (kmer_exts_item c (sl_view (d_abs d) s) exts) (seq 0 (s_length s + 1 - K)).
+Proof.
+  intros Hinv Hs He. pose proof (sl_view_length d s Hinv Hs) as HA. rewrite <- HA.
+  apply (iter_kmer_exts_spec c Hc (sl_view (d_abs d) s) (sl_view_wf d s)); [| |exact He].
+  - intros i Hi. apply sl_get_spec; [exact Hinv | exact Hs | now rewrite <- HA].
+  - intros i Hi. apply sl_get_kmer_spec; [exact Hc | exact Hinv | exact Hs | now rewrite <- HA].
+Qed.
+
+(* DnaBytes / DnaSlice: get = the byte itself *)
+Theorem bytes_iter_kmers_spec (l : dna) : wf_dna l ->
+  exists ks, iter_kmers c (length l) (nth_opt l) (bytes_get_kmer c l) = Some ks /\ Forall (wf K) ks /\
+             map (decode K) ks = kmers K l.
+Proof.
+  intro Hl. apply (iter_kmers_spec c Hc l Hl).
+  - intros i Hi. now apply nth_opt_some.
+  - intros i Hi. now apply bytes_get_kmer_spec.
+Qed.
+Theorem bytes_iter_kmer_exts_spec (l : dna) exts : wf_dna l -> exts < 256 ->
+  exists items, iter_kmer_exts c (length l) (nth_opt l) (bytes_get_kmer c l) exts = Some items /\ Forall (item_wf c) items /\
+                map (item_view c) items = map (kmer_exts_item c l exts) (seq 0 (length l + 1 - K)).
+Proof.
+  intros Hl He. apply (iter_kmer_exts_spec c Hc l Hl); [| |exact He].
+  - intros i Hi. now apply nth_opt_some.
+  - intros i Hi. now apply bytes_get_kmer_spec.
+Qed.
+End Instances.
